@@ -166,9 +166,10 @@ func sanitize(s string) string {
 // components, string literals, uninterpreted helpers.
 
 type Comp struct {
-	Name string // SMT base name
-	Sort string // SMT sort of the whole component
-	Kind string // field, cell, elems, mapdom, mapval, maplen, ghost, global, alloc
+	ValTyp types.Type // Go type of the stored values (fields, cells, slice elements), if known
+	Name   string     // SMT base name
+	Sort   string     // SMT sort of the whole component
+	Kind   string     // field, cell, elems, mapdom, mapval, maplen, ghost, global, alloc
 }
 
 type StructInfo struct {
@@ -384,15 +385,21 @@ func (w *World) fieldComp(t types.Type, i int) *Comp {
 		fname = fmt.Sprintf("_blank%d", i)
 	}
 	name := "F!" + strings.TrimPrefix(si.Sort, "S!") + "!" + fname
-	return w.comp(name, "(Array Int "+w.sortOf(f.Type())+")", "field")
+	c := w.comp(name, "(Array Int "+w.sortOf(f.Type())+")", "field")
+	c.ValTyp = f.Type()
+	return c
 }
 
 func (w *World) cellComp(t types.Type) *Comp {
-	return w.comp("P!"+shortTypeName(types.Unalias(t)), "(Array Int "+w.sortOf(t)+")", "cell")
+	c := w.comp("P!"+shortTypeName(types.Unalias(t)), "(Array Int "+w.sortOf(t)+")", "cell")
+	c.ValTyp = t
+	return c
 }
 
 func (w *World) elemComp(t types.Type) *Comp {
-	return w.comp("E!"+shortTypeName(types.Unalias(t)), "(Array Int (Array Int "+w.sortOf(t)+"))", "elems")
+	c := w.comp("E!"+shortTypeName(types.Unalias(t)), "(Array Int (Array Int "+w.sortOf(t)+"))", "elems")
+	c.ValTyp = t
+	return c
 }
 
 func (w *World) mapComps(m *types.Map) (dom, val, card *Comp) {
